@@ -1,0 +1,24 @@
+//go:build verif
+
+// Package verifhook provides instrumentation points for external verification harnesses. With the
+// "verif" build tag a harness can install a function that is called at every Gate.
+package verifhook
+
+import "sync/atomic"
+
+var gate atomic.Value // func(string)
+
+// SetGate installs f (nil removes it).
+func SetGate(f func(point string)) {
+	if f == nil {
+		f = func(string) {}
+	}
+	gate.Store(f)
+}
+
+// Gate marks a point at which a verification harness may pause the calling goroutine.
+func Gate(point string) {
+	if f, ok := gate.Load().(func(string)); ok {
+		f(point)
+	}
+}
